@@ -283,6 +283,9 @@ pub fn schedule_streams(thorough: bool) -> Vec<GenStream> {
             v.push(b.finish());
         }
     }
+    // short-code Huffman block followed by tiny stored blocks (bytes of the stored block are read
+    // ahead into the bit buffer: RawReadFirstByte / RawStoreFirstByte with every output budget)
+    v.extend(streams::short_code_then_stored(None).into_iter().step_by(if thorough { 2 } else { 9 }));
     // fast-path geometry: p literals, then (literal, 258-byte match) pairs, then >= 14 more input
     // bytes, so the fast loop meets "exactly 258/259/260 bytes of room left" before a maximal match
     for p in 0..=3usize {
